@@ -1,2 +1,3 @@
 import Omaha.Basic.Bytes
 import Omaha.Version
+import Omaha.Time
